@@ -27,8 +27,9 @@ typedef struct lockfree_ring_buffer {
 static inline lockfree_ring_buffer_t* lockfree_ring_buffer_create(
     uint32_t power_of_2_size) {
   assert(power_of_2_size && power_of_2_size < 32);
-  const uint32_t size = 1 << power_of_2_size;
-  const uint32_t required_size =
+  const uint32_t size = (uint32_t)1 << power_of_2_size;
+  // not uint32_t: 2^29 slots and up need more than 4 GiB
+  const size_t required_size =
       sizeof(lockfree_ring_buffer_t) + size * sizeof(void*);
   lockfree_ring_buffer_t* const ret =
       (lockfree_ring_buffer_t*)calloc(1, required_size);
